@@ -179,7 +179,7 @@ class C04Step1D(Harness):
 class C04StepND(Harness):
     prop = "C04"
     group = "stepnd"
-    bounds_doc = "inductive step in 2D (and 3D in thorough): adaptive fixed-width axes (symbolic width per axis, offsets in [-2,2], 1..2 bins per axis), one fill(point) or fill_n(1..2 points) within 3 widths of the range"
+    bounds_doc = "inductive step in 2D (and 3D in thorough): adaptive fixed-width axes (symbolic width per axis, offsets in [-2,2], 1..2 bins per axis), one fill(point) or fill_n(1 point) within 3 widths of the range, fill_n(2 points) within 1 width"
 
     def instances(self, tier):
         shapes = [(1, 2)] if tier == "quick" else [(1, 2), (2, 1), (2, 2), (1, 1, 2)]
@@ -187,7 +187,8 @@ class C04StepND(Harness):
             for call in ("fill", "filln1", "filln2"):
                 if (len(shape) == 3 or tier == "quick") and call == "filln2":
                     continue
-                yield f"and-S{'x'.join(map(str, shape))}-{call}", dict(shape=list(shape), call=call, reach=2 if tier == "quick" else 3)
+                # two-point batches in ND: values within 1 width of the range (3 for single points) - the path count is (bins + 2*reach)^(2*D)
+                yield f"and-S{'x'.join(map(str, shape))}-{call}", dict(shape=list(shape), call=call, reach=2 if tier == "quick" else (1 if call == "filln2" else 3))
         yield "and-empty-fill", dict(shape=[0, 0], call="fill", reach=2)
         if tier != "quick":
             yield "and-empty-filln2", dict(shape=[0, 0], call="filln2", reach=2)
